@@ -150,7 +150,7 @@ def run_case(case, want_trace=False):
         net.before_delivery = before
         net.after_delivery = after
 
-        t_shutdown = case.get("shutdown", 120.0)
+        t_shutdown = case.get("shutdown", 120.0 if max(r["t"] for r in reqs) < 20 else 250.0)
         net.run_until(t_shutdown)
         net.before_delivery = net.after_delivery = None
         net.shutdown_context(client)
@@ -329,7 +329,8 @@ def _case(draw):
     reqs = []
     for _ in range(n):
         r = {
-            "t": draw(st.sampled_from([0.0, 0.0, 0.001, 0.5, 1.0, 2.0, 5.0])),
+            # mostly concurrent; sometimes long after earlier requests have run into their time-outs
+            "t": draw(st.sampled_from([0.0, 0.0, 0.001, 0.5, 1.0, 2.0, 5.0, 0.0, 0.001, 0.5, 1.0, 2.0, 5.0, 50.0, 100.0, 101.0])),
             "server": draw(st.integers(0, 2)),
             "con": draw(st.booleans()),
             "script": draw(st.sampled_from(SCRIPTS)),
